@@ -220,12 +220,16 @@ impl MultiRecord<'_> {
         }
     }
 
+    /// Serializes the payloads, giving them consecutive positions from `position` on.
+    ///
+    /// `u64::MAX` is never used as a position (the position after it could not be
+    /// represented): payloads for which no position is left are not consumed.
     pub fn serialize<T: Iterator<Item = impl Buf>>(
         record_payloads: T,
         position: u64,
         output: &mut Vec<u8>,
     ) {
-        Self::serialize_with_pos((position..).zip(record_payloads), output);
+        Self::serialize_with_pos((position..u64::MAX).zip(record_payloads), output);
     }
 
     fn serialize_with_pos(
